@@ -1504,6 +1504,8 @@ func runC13(c *Ctx, r *Report) {
 	c13R3(c, r, "C13.R3")
 	c13R4(c, r, "C13.R4")
 	c13R6(c, r, "C13.R6")
+	c13R10(c, r, "C13.R10")
+	c01R2(c, r, "C13.R9") // what the consumer of the wrapped listener reads starts at the first unconsumed byte: freeze/unfreeze restore exactly the cursor
 	c05R23(c, r, "C13.R8") // the hand-off is a fallback: it must run with the matching deadline cleared, or the consumer's reads time out
 	// R7
 	r.rule("C13.R7", "bounded abstract interpretation of the compiled route handler (0..3 routes): after a terminal route nothing runs - in particular the hand-off fallback is not called - and the fallback is called at most once", 4)
@@ -2082,4 +2084,45 @@ func c09R9(c *Ctx, r *Report, rule string) {
 		problems = append(problems, "no path notifies the server loop")
 	}
 	r.check(len(problems) == 0, rule, fnName, "release before notify", c.pos(fn.Pos()), fmt.Sprintf("%d paths", len(paths)), strings.Join(dedup(problems), "; "))
+}
+
+// c13R10: the accept loop of the wrapped listener survives transient accept errors. A temporary error of the
+// underlying Accept (EMFILE, ECONNABORTED ...) while the listener is open must lead back to Accept; only a
+// permanent error ends the loop (and with it closes `done`, drains and closes what is pending).
+func c13R10(c *Ctx, r *Report, rule string) {
+	r.rule(rule, "listener.loop: there is a way back to Accept that is taken when the accept error reports itself as temporary (net.Error.Temporary) and the listener is not closed; the loop is left only on other errors", 1)
+	fn := c.Fn("layer4.(*listener).loop")
+	if fn == nil {
+		r.bad(rule, "layer4.(*listener).loop", "exists", "-", "function not found")
+		return
+	}
+	var accept *ssa.Call
+	for _, ci := range callsIn(fn) {
+		if isInvoke(ci, "Accept") {
+			accept, _ = ci.(*ssa.Call)
+		}
+	}
+	if accept == nil {
+		r.bad(rule, fname(fn), "accept", c.pos(fn.Pos()), "the call of the underlying Accept was not found")
+		return
+	}
+	good := false
+	for _, b := range fn.Blocks {
+		ifi, ok := b.Instrs[len(b.Instrs)-1].(*ssa.If)
+		if !ok {
+			continue
+		}
+		// the condition (possibly one leg of a && chain) is a call of Temporary on the error
+		call, ok := ifi.Cond.(*ssa.Call)
+		if !ok || !call.Call.IsInvoke() || call.Call.Method.Name() != "Temporary" {
+			continue
+		}
+		// from the true edge the Accept call is reachable again without leaving the loop
+		for blk := range reachableFrom(b.Succs[0], true) {
+			if blk == accept.Block() {
+				good = true
+			}
+		}
+	}
+	r.check(good, rule, fname(fn), "temporary accept errors are retried", c.ipos(accept), "a temporary accept error leads back to Accept", "no branch on the accept error being temporary leads back to Accept: one transient error (too many open files, aborted connection) ends the loop although the listener is open - `done` is closed, pending connections are dropped and later clients are never served")
 }
